@@ -72,6 +72,8 @@ enum Kind {
 
 type Mutation {
   bump(by: Int): Int
+  diff(a: Int, b: Int): Int
+  renamed: String
 }
 `
 
@@ -220,6 +222,12 @@ type Mutation struct{ N int }
 // Bump adds.
 func (m *Mutation) Bump(by int32) int { return m.N + int(by) }
 
+// Minus is bound to Mutation.diff with RegisterField; its parameters are in the opposite order of the GraphQL arguments.
+func (m *Mutation) Minus(b int, a int) int { called("Mutation.Minus"); return a - b }
+
+// OtherName is bound to Mutation.renamed with RegisterField (the names are unrelated).
+func (m *Mutation) OtherName() string { return "renamed ok" }
+
 // NewRoot builds a fresh zoo root (cold: nothing lazily registered).
 func NewRoot() (*ggql.Root, *Root, error) {
 	i2 := &Item{ID: "i2", Size: 2, Tags: []string{"x", "y"}, Kind: "LARGE"}
@@ -233,6 +241,16 @@ func NewRoot() (*ggql.Root, *Root, error) {
 		return nil, nil, err
 	}
 	if err := root.RegisterType(&BoxIn{}, "Box"); err != nil {
+		return nil, nil, err
+	}
+	// explicit type and field registration (the other object types are discovered by name or @go)
+	if err := root.RegisterType(&Mutation{}, "Mutation"); err != nil {
+		return nil, nil, err
+	}
+	if err := root.RegisterField("Mutation", "diff", "Minus", "b", "a"); err != nil {
+		return nil, nil, err
+	}
+	if err := root.RegisterField("Mutation", "renamed", "OtherName"); err != nil {
 		return nil, nil, err
 	}
 	return root, r, nil
@@ -263,6 +281,8 @@ var Requests = []struct {
 	{`{ __type(name: "Item") { name kind fields { name type { name kind ofType { name } } } interfaces { name } } }`, nil},
 	{`query Q($s: Boolean = true) { name @skip(if: $s) count @include(if: $s) }`, nil},
 	{`mutation { bump(by: 3) }`, nil},
+	{`mutation { diff(a: 10, b: 3) renamed }`, nil},
+	{`mutation($x: Int = 2) { d1: diff(b: $x, a: 1) d2: diff(a: $x) }`, nil},
 	{`{ pick(i: 1) { id } }`, nil},
 	{`{ add(a: 1, b: 2) }`, nil},
 	{`{ box(in: {d: [1, 2], name: "n"}) }`, nil},
